@@ -4,7 +4,7 @@ import DoitModel.Model.Cmds
 open Lean DoitModel.Status DoitModel.Cmds
 namespace Driver.P13
 /-! requests `{"model":"c13","mode":"model"|"monitor","fixed":bool,"npaths":n,"checker":"md5"|"ts",
-   "tasks":[{"deps":[p…],"targets":[p…],"uptodate":[item…],"task_dep":[t…],"setup":[t…],"sub_of":t|null}…],
+   "tasks":[{"deps":[p…],"targets":[p…],"uptodate":[item…],"task_dep":[t…],"setup":[t…],"calc_dep":[t…],"sub_of":t|null}…],
    "default":null|[t…],"ops":[op…]}`   (task i of the list is name `i`; any other number is an unknown name)
 
 ops: `["edit",p,size,cid] ["touch",p] ["delete",p] ["checker","md5"|"ts"]
@@ -35,16 +35,19 @@ structure TaskJ where
   taskDep : List Nat
   setup : List Nat
   subOf : Option Nat
+  calcDep : List Nat
 
 def parseTask (j : Json) : TaskJ :=
-  ⟨Driver.Status.parseDef j, jnats j "task_dep", jnats j "setup", Driver.Status.optNat (jobj j "sub_of")⟩
+  ⟨Driver.Status.parseDef j, jnats j "task_dep", jnats j "setup", Driver.Status.optNat (jobj j "sub_of"),
+   jnats j "calc_dep"⟩
 
 def mkGraph (ts : List TaskJ) : Graph :=
   let arr := ts.toArray
   { names := List.range ts.length
     taskDep := fun t => match arr[t]? with | some x => x.taskDep | none => []
     setup := fun t => match arr[t]? with | some x => x.setup | none => []
-    subOf := fun t => match arr[t]? with | some x => x.subOf | none => none }
+    subOf := fun t => match arr[t]? with | some x => x.subOf | none => none
+    calcDep := fun t => match arr[t]? with | some x => x.calcDep | none => [] }
 
 def mkDefs (ts : List TaskJ) : Nat → TaskDef :=
   let arr := ts.toArray
